@@ -50,19 +50,21 @@ func specPool(tier string) int {
 }
 
 func (check) Rule() string {
-	return "per case: a type program (struct with config tags / *struct / inline struct / map[string]T / []T / [N]T / interface{} over leaves string bool int int8-64 uint uint8-64 float32/64 time.Duration *regexp.Regexp, pointers to them, four hand-written leaf types with Validate or Unpack and a struct with Validate; validate tags min max positive nonzero required; depth <= 4) drawn from a seed-determined pool (thorough: 3000 programs, bounds the reflect.StructOf types per worker), a data tree generated FROM the program (numbers as int64/uint64/float64/decimal string, durations as text or seconds, free data below interface{}) loaded with NewFrom(PathSep(\".\"), VarExp, MetaData{src-<case>}) which must Unpack into the type (else valid-pair-rejected). Then up to 8 single faults, stratified over the fault kinds applicable in the tree (object/list for primitive, primitive for object/list, bool<->number, unparsable int/uint/float/bool/duration/regexp, out of range for every sized integer/float32/float64/duration incl. 2^63 and 2^64 floats, negative into unsigned, tag validators min/max/positive/nonzero/required with empty/null/missing, failing Validate()/Unpack() of the hand-written types, a struct setting left out whose first validated member then fails on its zero value, ${nope.missing}, self-referencing ${<path>}, a reference into a cycle of two helper settings (x:${y}, y:${x}; struct targets only, which do not read the helpers), a reference through a primitive of the tree with two or more further segments (${k.x.y}), array too short/long; half of the reference faults are placed below an interface{} slot when the tree has one), each at one setting of the tree (struct fields, inline fields, map entries, list and array elements, below pointers, inside interface{} data). Every fault is observed on the configuration built directly and on one built by a randomly chosen other route: merge chains under the default policy (fault delivered by the later operand over an absent or placeholder setting / fault present first and the surroundings merged over it), AppendValues / PrependValues chains that cut the outermost list on the fault path into up to three operands (renumbering), NewFrom plus Remove of 1-3 extra elements in front of the fault in a list on the path (shifting), the input spelled in dotted keys (every edge into a non-empty dictionary or list folded into the key, \"a.b.c\":1 / \"a.l.0\":1 / \"a.l.1.k\":2 with lists spelled completely, or kept nested, decided per path; alone or as operands of the two default-policy chains; a quarter of the routed runs) so that namespaces and lists exist only implicitly, the value written by Set*/SetChild, an enclosing subtree attached by SetChild (fresh or taken from another tree), the key removed by Remove; the valid twin of every routed history must still unpack. Observations: Unpack (with and without PathSep), the getters that must fail for the fault (dotted name, name+idx, or relative to an intermediate Child), Unpack of an intermediate Child into the matching sub-type. Plus, per case, ~600 calls driving the error paths of Bool/Int/Uint/Float/String/Child, Has, CountField, Remove, Set*, SetChild, NewFrom, Merge and Unpack (missing, through primitives, through failing references, wrong types, unsupported values and targets, non-string keys, duplicate keys, broken ${ syntax, failing resolvers). Distinct = distinct (type program and tree shape, fault kind, depth class, route)."
+	return "per case: a type program (struct with config tags / *struct / inline struct / map[string]T / []T / [N]T / interface{} over leaves string bool int int8-64 uint uint8-64 float32/64 time.Duration *regexp.Regexp, pointers to them, four hand-written leaf types with Validate or Unpack and a struct with Validate; validate tags min max positive nonzero required; depth <= 4) drawn from a seed-determined pool (thorough: 3000 programs, bounds the reflect.StructOf types per worker), a data tree generated FROM the program (numbers as int64/uint64/float64/decimal string, durations as text or seconds, free data below interface{}) loaded with NewFrom(PathSep(\".\"), VarExp, MetaData{src-<case>}) which must Unpack into the type (else valid-pair-rejected). Then up to 10 single faults, stratified over the fault kinds applicable in the tree (object/list for primitive, primitive for object/list, bool<->number, unparsable int/uint/float/bool/duration/regexp, out of range for every sized integer/float32/float64/duration incl. 2^63 and 2^64 floats, negative into unsigned, tag validators min/max/positive/nonzero/required with empty/null/missing, failing Validate()/Unpack() of the hand-written types, a struct setting left out or present as null whose first validated member then fails on its zero value, references that do not resolve: a path missing at its first segment (${nope}, ${nope.missing}, ${nope.x.y}), at an intermediate or at the last segment below a namespace of the tree (${a.b.zz_nope.x}, ${a.b.zz_nope}), at an index behind a list of the tree (${l.5}, ${l.5.x}), through a primitive of the tree (${k.x}, ${k.x.y}, ${l.0.x.y}), self-referencing ${<path>}, a reference into a cycle of two helper settings (x:${y}, y:${x}; struct targets only, which do not read the helpers) - each either as the whole value (2 of 5) or inside a splice evaluating to a text (\"pre-${r}\", \"${r}/cache\"), a list (\"${r},extra\", \"[1, ${r}, 3]\") or an object (\"{zk: ${r}}\", \"{zk: {zm: [${r}]}}\") -, array too short/long; half of the reference faults are placed below an interface{} slot when the tree has one), each at one setting of the tree (struct fields, inline fields, map entries, list and array elements, below pointers, inside interface{} data). Every fault is observed on the configuration built directly and on one built by a randomly chosen other route: merge chains under the default policy (fault delivered by the later operand over an absent or placeholder setting / fault present first and the surroundings merged over it), AppendValues / PrependValues chains that cut the outermost list on the fault path into up to three operands (renumbering), NewFrom plus Remove of 1-3 extra elements in front of the fault in a list on the path (shifting), the input spelled in dotted keys (every edge into a non-empty dictionary or list folded into the key, \"a.b.c\":1 / \"a.l.0\":1 / \"a.l.1.k\":2 with lists spelled completely, or kept nested, decided per path; alone or as operands of the two default-policy chains; a quarter of the routed runs) so that namespaces and lists exist only implicitly, merges under ReplaceValues / ReplaceArrValues over an earlier operand holding the valid tree with every list on the fault path one element longer, the value written by Set*/SetChild, a faulty list or object written leaf by leaf with setters using full paths (the containers in between exist only as a by-product), an enclosing subtree attached by SetChild (fresh or taken from another tree), the key removed by Remove; and values produced by expansion (a fixed quarter of the routed runs): the subtree at the faulty setting, at its holder or further up the path is written as text in the flag/environment value syntax (bare, single and double quoted strings and keys, lists with and without brackets, nested lists and objects, null members) and the setting holds \"${ENV_n}\" served by a Resolve callback given to every read, or a splice whose middle piece is served by the callback or by a top-level helper setting, stored directly or delivered by a later merge operand - the list or object exists only while it is read, the fault sits at it (length, validator, type), at a member missing from it, or below it at any depth. The valid twin of every routed history must still unpack (for expanded values a twin that does not unpack is only counted: a number written as text is no duration). Observations: Unpack (with and without PathSep), the getters that must fail for the fault (dotted name, name+idx, or relative to an intermediate Child), Unpack of an intermediate Child into the matching sub-type; for reference faults also the calls that pass through the failing reference or measure it (Has, Remove, Set* of a name below it, CountField of it; judged when they fail). Plus, per case, 6 reads of settings that do not exist (a key not in a dictionary of the tree, an index behind a list of the tree, names below those; dotted, name+idx, through a Child handle; any getter) whose error must name the first missing setting or a longer prefix of the request, and carry the source; and ~600 calls driving the error paths of Bool/Int/Uint/Float/String/Child, Has, CountField, Remove, Set*, SetChild, NewFrom, Merge and Unpack (missing, through primitives, through failing references, wrong types, unsupported values and targets, non-string keys, duplicate keys, broken ${ syntax, failing resolvers). Distinct = distinct (type program and tree shape, fault kind, depth class, route)."
 }
 
 func (check) Assumptions() []string {
 	return []string{
 		"wording independent judgement of the message (Message() of the typed error): the setting is named iff its full dotted path (keys and list indices, at which the generator put the fault) occurs as a delimited token (the characters before and behind are not letters, digits, '_', '.', '-'; a sentence's full stop delimits); if it does not occur but the path of another setting or container of the tree does (longest first; a proper prefix of the path counts) the error names a different setting, else it names none; the source must occur as a delimited token anywhere. A key quoted in a cyclic reference clause counts only if it is the faulty setting's own full path (falls out of the token rule)",
 		"generated keys are distinctive tokens (ka, hst, cfg_1, with-dash, q r, k1, ...) that do not occur in the prose of messages, in type names or in the texts of the hand-written Validate/Unpack methods",
-		"merge chains give every operand its own source src-<case>-op<k>: the exact operand is demanded when the faulty value is a primitive delivered by one operand; when the error is raised on behalf of the holder (required/missing/empty, array length, references, containers in place of primitives) any source of the chain is accepted",
+		"merge chains give every operand its own source src-<case>-op<k>: the exact operand is demanded whenever a value exists at the faulty setting (a primitive, the text of a reference or splice, a list or an object: every route delivers it by one operation); when nothing exists there (absent, null: the error is raised on behalf of the holder), for the lenient list-for-object kind, and for a dictionary merged key by key from two operands (ReplaceArrValues over an existing dictionary) any source of the chain is accepted",
+		"a value produced by expansion belongs to the setting holding the expression: errors at and below it must show that setting's source and continue its dotted path. Texts are generated so that the value parser reads them back as the tree they were written from (checked with parse.Value as a filter on the generator, not as an oracle; a non-negative integer comes back unsigned); empty lists and objects, a text that is just null, and strings containing '$' are not written as text",
+		"a read of a setting that does not exist: the error may name the first missing setting on the requested path or any longer prefix of the request (which of them is not pinned down); calls passing through a failing reference (Has, Remove, Set*, CountField) need not fail (Has reports a missing reference as absent), only their errors are judged",
 		"single fault only: all other settings conform to the type, so which of several guilty settings is named cannot arise; keys never contain '.', quotes or '$', and are never numeric",
 		"target types never put pointers inside slices or maps, never point to maps, slices or arrays, use arrays only as struct fields and *regexp.Regexp only as a struct field (other shapes are C06/C07 findings)",
 		"a list where an object is expected is not clearly an error by the documentation (a list is a Config object): if Unpack accepts it this is only counted; if it fails the error must name the setting or one below it",
-		"the source is not demanded where no value exists that could carry it (a member of an absent struct) nor for the lenient list-for-object kind; for an absent or null setting with a required tag it is demanded from the holder (the library attaches the holder's source there)",
-		"signatures: <problem>:<fault kind>:<target shape>[+inline][+from-child]:<depth class>[:only-via-<route>] (the suffix when the directly built configuration does not show the problem under the same views); fault-not-detected carries no depth class (no message exists that could misname anything); error-names-wrong-source (the source of another operand of the chain) extends the problem list; two predicates get their own signature: ...:interface-target (the enclosing interface{} slot is named instead of the leaf inside) and ...:drops-struct-key (the key of an absent struct is left out of the path of its member)",
+		"the source is not demanded where no value exists that could carry it (a member of an absent struct) nor for the lenient list-for-object kind; for an absent or null setting with a required tag it is demanded from the holder (the library attaches the holder's source there); a struct setting present as null is a value loaded with a source, so errors about its members must show one",
+		"signatures: <problem>:<fault kind>:<target shape>[+inline][+from-child]:<depth class>[:only-via-<route>] (the suffix when the directly built configuration does not show the problem under the same views); fault-not-detected carries no depth class (no message exists that could misname anything); error-names-wrong-source (the source of another operand of the chain) extends the problem list; predicates that hold across kinds, shapes and depths get their own signature: ...:interface-target (the enclosing interface{} slot is named instead of the leaf inside), ...:drops-struct-key (the key of an absent struct is left out of the path of its member), <problem>:<kind>:through-<call> (a call passing through a failing reference), error-lacks-source:value-inside-expanded-container:via-<route> and error-lacks-source:expanded-list-or-object-itself:via-<route> (expansion routes expand-resolver|expand-splice @self|@holder|@ancestor: where the expanded value sits relative to the setting to be named), error-lacks-source:<kind>:container-implied-by-setters, error-names-wrong-source:failing-reference:list-target, error-names-wrong-source:<kind>:list-replaced-as-a-whole:only-via-merge-replace-arr, error-lacks-source:required-in-null-struct, error-names-wrong-path:missing-read:<what is missing>:<top-level|nested>-holder:<form>:<front|middle>-of-path-dropped; reference kinds carry the form of the splice (+splice-text, +splice-list, +splice-object)",
 		"not demanded: Error.Path(), the wording, which Reason is used, errors of the YAML/JSON/HJSON syntax decoders and of the OS; whether the typed-error drive calls fail at all (only counted: drive_no_error)",
 		"panics are reported (panic:<entry point>) but inputs known to panic (C07: Unpack(&interface{}), negative idx, nil and unaddressable targets, complex values) are not generated",
 	}
@@ -487,6 +489,9 @@ func (cs *caseState) observe(rt route, T *model.Node, pos *position, f fault, ba
 			// a call that passes through the failing reference or measures it:
 			// what matters is the call and how the reference fails
 			sig = problem + ":" + f.kind + ":" + shape
+		case problem == "error-lacks-source" && f.kind == "required-in-null-struct":
+			// however the null got there
+			sig = problem + ":" + f.kind
 		case problem == "error-lacks-source" && b.insideExpanded:
 			// the failing value lies inside a list or object built from expanded text
 			sig = problem + ":value-inside-expanded-container:via-" + rt.name
@@ -503,8 +508,6 @@ func (cs *caseState) observe(rt route, T *model.Node, pos *position, f fault, ba
 		case problem == "error-names-wrong-source" && rt.name == "merge-replace-arr" && valSub && f.val.HasA:
 			// the list was replaced as a whole by a later operand
 			sig = problem + ":" + f.sigKind() + ":list-replaced-as-a-whole:only-via-" + rt.name
-		case problem == "error-lacks-source" && f.kind == "required-in-null-struct":
-			sig = problem + ":" + f.kind
 		}
 		res.Violate(sig, "%s: %s: message %q names other settings %q, expected '%s' and source %s; %s", entry, problem, clip(msg, 500), named, want, cs.base, ctx())
 	}
